@@ -1,5 +1,5 @@
 """Which verification tasks serve which property, and the fixed lists reported in every evidence file."""
-TASK_MODULES = ["pyvc.tasks_layer1", "pyvc.tasks_c07", "pyvc.tasks_c16"]
+TASK_MODULES = ["pyvc.tasks_layer1", "pyvc.tasks_c07", "pyvc.tasks_c16", "pyvc.tasks_c20"]
 
 L1_ALL = ["layer1/Circuit." + m for m in ("type", "is_output", "fanin", "fanout", "nodes", "edges", "connect", "disconnect", "remove",
                                           "set_output", "set_type", "outputs", "inputs", "io", "startpoints", "endpoints", "uid", "add[default]", "add[uid]")]
@@ -11,7 +11,8 @@ PROPERTY_TASKS = {
     "C12": ["layer1/Circuit.fanin", "layer1/Circuit.fanout", "layer1/Circuit.startpoints", "layer1/Circuit.endpoints",
             "layer1/Circuit.inputs", "layer1/Circuit.outputs"],
     "C16": ["C16/remove_unloaded", "layer1/Circuit.remove", "layer1/Circuit.fanin", "layer1/Circuit.fanout", "layer1/Circuit.type", "layer1/Circuit.is_output"],
-    "C19": L1_ALL,
+    "C20": ["C20/lint", "layer1/Circuit.type", "layer1/Circuit.fanin", "layer1/Circuit.fanout", "layer1/Circuit.is_output", "layer1/Circuit.nodes"],
+    "C19": L1_ALL + ["C20/lint"],
 }
 
 TRUSTED_BASE = [
@@ -35,4 +36,4 @@ EXTRACTION_DROPS = [
     "import statements (imported names are bound to assumed contracts)",
 ]
 
-TASK_FILES = {"layer1": "circuitgraph/circuit.py", "C07": "circuitgraph/circuit.py", "C16": "circuitgraph/circuit.py"}
+TASK_FILES = {"layer1": "circuitgraph/circuit.py", "C07": "circuitgraph/circuit.py", "C16": "circuitgraph/circuit.py", "C20": "circuitgraph/utils.py"}
